@@ -77,6 +77,53 @@ def senders(prog, ex, P, tier):
         M.mon_c07(tr, "A", expect_alive=False)
 
 
+ABANDONED = [
+    # an ask whose caller gives up (timeout) after the mailbox accepted it, with later traffic behind it
+    dict(cap=3, hy=1, pre=[("tell", "A", 7)], c1=[("ask_t", "A", 1, "d"), ("tell", "A", 2)], c2=None),
+    # the ask future is dropped (select!/abort) at an arbitrary moment
+    dict(cap=3, hy=1, pre=[("tell", "A", 7)], c1=[("ask_c", "A", 1), ("tell", "A", 2)], c2=None),
+    # a tell waiting for a slot is dropped at an arbitrary moment
+    dict(cap=1, hy=1, pre=[("tell", "A", 7)], c1=[("tell_c", "A", 1), ("tell", "A", 2)], c2=None),
+    # two askers, one of them abandons
+    dict(cap=2, hy=1, pre=None, c1=[("ask_c", "A", 1), ("ask", "A", 2)], c2=[("ask", "A", 3)]),
+]
+
+
+def abandoned(prog, ex, P, tier):
+    """operations whose caller gives up: ask_with_timeout expiring after acceptance, ask / tell
+    futures dropped at an arbitrary moment (every cancellation point is a scheduler choice), with
+    later traffic queued behind them"""
+    v = pick(ex, ABANDONED if tier != "quick" else ABANDONED[:3], "variant")
+    s = Sim(prog, ex)
+    w = s.w
+    s.spawn_actor(Script("A", handler_yields={"*": v["hy"]}), v["cap"])
+    d = ex.sym("d", 64)
+    ex.assume(z3.ULE(d, 4))
+    if v["pre"]:
+        s.client("c0", v["pre"], ["A"])
+        w.poll_task(s.it, w.tasks[1])
+    ops = [tuple(d if x == "d" else x for x in op) for op in v["c1"]]
+    c1 = s.client("c1", ops, ["A"])
+    if v["c2"]:
+        s.client("c2", v["c2"], ["A"])
+    s.drop_main("A")
+    ticks = [1]
+
+    def can_tick():
+        return ticks[0] > 0 and c1.cur is not None and c1.ops[c1.i][0] == "ask_t"
+
+    def tick():
+        ticks[0] -= 1
+        dt = ex.sym("dt%d" % ticks[0], 64)
+        ex.assume(z3.ULE(dt, 6))
+        w.advance(dt)
+    s.extra_actions.append((can_tick, tick, "clock-advance"))
+    s.extra_actions.append((c1.can_cancel, lambda: c1.cancel(s.it), "cancel-c1"))
+    s.run(80)
+    tr = finish(ex, s)
+    apply(tr, P, cap=v["cap"])
+
+
 def drop_immediately(prog, ex, P, tier):
     """references dropped immediately after the send returns, full mailbox, slow handler"""
     cap = pick(ex, [1, 2], "cap")
@@ -92,7 +139,7 @@ def drop_immediately(prog, ex, P, tier):
 
 
 CAUSES = ["stop", "kill", "drop", "on_start_err", "on_start_panic", "on_run_err", "on_run_panic", "handler_panic",
-          "stop+on_stop_err", "stop+on_stop_panic", "on_run_err+on_stop_err", "kill+on_stop_err", "on_start_slow+kill", "slow_on_stop:stop+kill",
+          "stop+on_stop_err", "stop+on_stop_panic", "on_run_err+on_stop_err", "on_run_err+on_stop_panic", "kill+on_stop_panic", "drop+on_stop_panic", "kill+on_stop_err", "on_start_slow+kill", "slow_on_stop:stop+kill",
           "on_start_slow+stop"]
 
 
@@ -907,10 +954,16 @@ def blocking(prog, ex, P, tier):
         dict(cap=1, hy="tick", ops=[("btell", "A", 1), ("btell_t", "A", 2, 5), ("btell_t", "A", 3, 5)], other=None, end="drop"),   # mailbox stays full
         dict(cap=1, hy=0, ops=[("btell", "A", 1), ("yield",), ("btell", "A", 2), ("bask", "A", 3), ("btell_t", "A", 4, 9), ("bask_t", "A", 5, 9)], other=None, end="killfirst"),
     ], "variant")
+    PP = "C16" if P == "C16" else "C17"
     s = Sim(prog, ex)
     w = s.w
     s.spawn_actor(Script("A", handler_yields={"*": v["hy"]}), v["cap"])
     th = s.client("thread", v["ops"], ["A"])
+    if P == "C16":
+        # the same calls through Box<dyn TellHandler> / Box<dyn AskHandler>
+        for i, op in enumerate(v["ops"]):
+            if op[0] in ("btell", "bask", "btell_t", "bask_t"):
+                th.routes[i] = pick(ex, ["from_ref", "clone_boxed", "weak_upgrade"], "route%d" % i)
     if v["other"]:
         s.client("c2", v["other"], ["A"])
     if v["end"] == "stop":
@@ -927,7 +980,7 @@ def blocking(prog, ex, P, tier):
         try:
             mon(tr)
         except Violation as e:
-            raise Violation("C17", "blocking API: %s: %s" % (e.prop, e.msg), e.detail)
+            raise Violation(P if P == "C16" else "C17", "blocking API%s: %s: %s" % (" through erased handles" if P == "C16" else "", e.prop, e.msg), e.detail)
     ops = tr.ops()
     for o in ops.values():
         k = o["op"][0]
@@ -936,22 +989,22 @@ def blocking(prog, ex, P, tier):
         res = o["result"]
         has_to = k in ("btell_t", "bask_t")
         if has_to:
-            ex.check("C17", res != "BLOCKED-FOREVER", "%s with a timeout never returns" % k)
+            ex.check(PP, res != "BLOCKED-FOREVER", "%s with a timeout never returns" % k)
             # returns by the deadline: the virtual clock at return is at most start + timeout
             start_now = tr.ev[o["start"]].get("now_raw", 0)
             end_now = tr.ev[o["done"]].get("now_raw", 0) if o["done"] is not None else None
             if end_now is not None and isinstance(start_now, int) and isinstance(end_now, int):
-                ex.check("C17", end_now <= start_now + o["op"][3], "%s returned at t=%d, deadline was t=%d" % (k, end_now, start_now + o["op"][3]))
+                ex.check(PP, end_now <= start_now + o["op"][3], "%s returned at t=%d, deadline was t=%d" % (k, end_now, start_now + o["op"][3]))
                 if M.rcode(res) == "timeout":
-                    ex.check("C17", end_now >= start_now + o["op"][3], "%s reported Timeout before its deadline" % k)
+                    ex.check(PP, end_now >= start_now + o["op"][3], "%s reported Timeout before its deadline" % k)
         if k in ("tell_blocking", "ask_blocking"):
-            ex.check("C17", len(w.timeouts) == 0, "the deprecated alias did not ignore its timeout argument")
-            ex.check("C17", M.rcode(res) != "timeout", "the deprecated alias timed out")
+            ex.check(PP, len(w.timeouts) == 0, "the deprecated alias did not ignore its timeout argument")
+            ex.check(PP, M.rcode(res) != "timeout", "the deprecated alias timed out")
         if k in ("bask", "bask_t", "ask_blocking") and M.rcode(res) == "ok":
-            ex.check("C17", M.okval(res) == M.reply_of(o["op"][2]), "blocking ask returned %s, not the reply to its request" % res)
+            ex.check(PP, M.okval(res) == M.reply_of(o["op"][2]), "blocking ask returned %s, not the reply to its request" % res)
     # timers created by the timeout variants carry the caller's duration
     exp = [o["op"][3] for o in sorted(ops.values(), key=lambda x: x["start"]) if o["op"][0] in ("btell_t", "bask_t") and not str(o["result"]).startswith("skipped")]
-    ex.check("C17", list(w.timeouts) == exp[:len(w.timeouts)] and len(w.timeouts) == len(exp), "timers %s, callers passed %s" % (list(w.timeouts), exp))
+    ex.check(PP, list(w.timeouts) == exp[:len(w.timeouts)] and len(w.timeouts) == len(exp), "timers %s, callers passed %s" % (list(w.timeouts), exp))
 
 
 # ---- feature equivalence (C18) -----------------------------------------------------------------
@@ -1135,7 +1188,7 @@ def macro_corpus(prog, ex, P, tier):
                 ex.check("C19", v.z() == acc, "handle() does not return what the method computes")
             elif h["ret"] == "unit":
                 ex.check("C19", is_unit(v), "Reply of a handler without return type is not ()")
-            elif h["ret"] in ("result", "std_result", "alias"):
+            elif h["ret"] in ("result", "std_result", "path1", "alias"):
                 is_err = ex.branch_bool(odd)
                 ex.check("C19", isinstance(v, Agg) and v.name == "Result" and v.variant == ("Err" if is_err else "Ok"), "Reply of a Result handler: %s (payload odd: %s)" % (w.describe(v), is_err))
                 if not is_err:
